@@ -194,6 +194,10 @@ pub fn run(rep: &mut Report) {
     let quick = rep.quick();
     // (a) rules
     let fams: Vec<(&str, usize, usize, &[Ph], &[u8])> = if quick { vec![("rules D(2,1,Phi6) x masks6", 2, 1, &PHI6[..], &MASKS6[..]), ("rules D(3,0,{0,1,1/2}) x masks4", 3, 0, &[(0, 1), (1, 1), (1, 2)][..], &MASKS4[..])] } else { vec![("rules D(2,2,Phi6) x masks6", 2, 2, &PHI6[..], &MASKS6[..]), ("rules D(3,1,{0,1,1/2,1/4}) x masks4", 3, 1, &PHI4[..], &MASKS4[..])] };
+    // tolerance track: phases outside k*pi/4 next to variable parities (the conditional scalar factors then multiply float
+    // scalars); same judge, whose comparison is relative (1e-9) as soon as one side is approximate
+    let mut fams = fams;
+    fams.push(("rules tolerance D(2,1,{0,1,1/3,5/7}) x masks4", 2, 1, &[(0, 1), (1, 1), (1, 3), (5, 7)][..], &MASKS4[..]));
     for (name, s, b, phis, masks) in &fams {
         let t0 = Instant::now();
         let structs = structures_upto(*s, *b, false);
